@@ -4,8 +4,11 @@ EXTENDS Pooling, TLC, Json, IOUtils
 Cases == JsonDeserialize(IOEnv.POOL_INPUT).cases
 VARIABLE st
 Init == st = [kind |-> "init"]
-Pick == st.kind = "init" /\ \E n \in 1..Len(Cases) : st' = [kind |-> "case", n |-> n]
-Next == Pick
+(* two-level fan-out: a one-level star (all cases successors of the initial state) is expanded by a single TLC worker *)
+NSh == 16
+PickShard == st.kind = "init" /\ \E s \in 0..(NSh - 1) : st' = [kind |-> "shard", s |-> s]
+Pick == st.kind = "shard" /\ \E n \in 1..Len(Cases) : n % NSh = st.s /\ st' = [kind |-> "case", n |-> n]
+Next == PickShard \/ Pick
 Laws == st.kind = "case" => PoolLaws(Cases[st.n].img, Cases[st.n].q, B(Len(Cases[st.n].img.dims)))
 Emit == st.kind = "case" =>
   LET A == Cases[st.n].img  q == Cases[st.n].q IN
